@@ -529,4 +529,4 @@ pub fn run(rep: &Report) {
     rep.floor("macro programs", rep.evals(), 600);
 }
 
-pub const RULE: &str = "random acyclic macro libraries (0-6 macros, 0-4 parameters drawn from a pool of names that are prefixes/substrings of each other and of body tokens, bodies of instructions and uses of other macros, arguments of kinds register / decimal / hex / binary number / bracketed memory / data label) used at top level and inside procedures; the harness's own whole-word token-level expander produces the hand-expanded program and both programs must emit identical code and data; a fixed family of direct / indirect / through-argument recursion, unknown names and invalid expansions must be rejected with a diagnostic whose position lies inside the use site; chains of depth 1..64 in process, 128..4096 through the real binary (abort = violation, watchdog = inconclusive). Distinct = (use site kind, emitted length) resp. error kind / chain depth. Use histories (repeated argument lists, macros defined again between uses; the definition current at each use counts); 100..700 parameters.";
+pub const RULE: &str = "random acyclic macro libraries (0-6 macros, 0-4 parameters drawn from a pool of names that are prefixes/substrings of each other and of body tokens, bodies of instructions and uses of other macros, arguments of kinds register / decimal / hex / binary number / bracketed memory / data label) used at top level and inside procedures; the harness's own whole-word token-level expander produces the hand-expanded program and both programs must emit identical code and data; a fixed family of direct / indirect / through-argument recursion, unknown names and invalid expansions must be rejected with a diagnostic whose position lies inside the use site; chains of depth 1..64 in process, 128..4096 through the real binary (abort = violation, watchdog = inconclusive). Distinct = (use site kind, emitted length) resp. error kind / chain depth. Use histories (repeated argument lists, macros defined again between uses; the definition current at each use counts); 100..700 parameters. Aftermath: a context that met refused uses of every kind (recursion, unknown macro, invalid expansion, chains of 129..200) and was clear()ed must expand generated libraries (same macro names) like a fresh context.";
